@@ -106,7 +106,7 @@ func uniq(s []string) []string {
 func C11(p *ir.Program, r *report.R) {
 	c := C{p, r}
 	r.Floor = 110
-	r.Explain = "Decided: (registry) every ser.RegisterConcrete call in the module uses a distinct constant name and a distinct type, from init-time code; for every message interface the set of registered concrete types equals the set of case types of the handler's type switch (both directions, exemptions listed); (dispatch) encoder and decoder kind dispatch cover the same classes in the same precedence for the special cases; (canonical maps) the map writer sorts the keys before emitting on every path and the key order is strict byte order; (bounded allocation) in Stream.Kind a size beyond the remaining input / enclosing list sets the sticky error, every allocation in the decoder whose size derives from the stream is dominated by the no-error result of Kind or by an explicit bound, slice growth is incremental, the map decoder bounds its entry count; every decode entry point in the module is given a bytes.Reader or a non-zero limit; (no panic on input) the set of explicit panic sites and unchecked type assertions reachable from the decode entry points inside libs/ser equals the reviewed table. ADDED after seeded-change testing: Stream.Kind: after a successful readKind no path reaches the return without an error or the established bound (size <= rest of list / remaining limited input), whatever the kind; DecodeBytes/DecodeBytesWithType return success only with an exhausted reader (one value per byte string). NOT decided: round-trip equality, canonical integer forms, equality of decoded values; implicit runtime panics inside reflect operations other than allocation sizes."
+	r.Explain = "Decided: (registry) every ser.RegisterConcrete call in the module uses a distinct constant name and a distinct type, from init-time code; for every message interface the set of registered concrete types equals the set of case types of the handler's type switch (both directions, exemptions listed); (dispatch) encoder and decoder kind dispatch cover the same classes in the same precedence for the special cases; (canonical maps) the map writer sorts the keys before emitting on every path and the key order is strict byte order; (bounded allocation) in Stream.Kind a size beyond the remaining input / enclosing list sets the sticky error, every allocation in the decoder whose size derives from the stream is dominated by the no-error result of Kind or by an explicit bound, slice growth is incremental, the map decoder bounds its entry count; every decode entry point in the module is given a bytes.Reader or a non-zero limit; (no panic on input) the set of explicit panic sites and unchecked type assertions reachable from the decode entry points inside libs/ser equals the reviewed table. ADDED after seeded-change testing: the type cache is entered only under typeCacheMutex.Lock (greatest fixed point over the generator recursion; RLock does not count); encbuf.toBytes returns fresh memory (never the pooled buffer) ; Stream.Kind: after a successful readKind no path reaches the return without an error or the established bound (size <= rest of list / remaining limited input), whatever the kind; DecodeBytes/DecodeBytesWithType return success only with an exhausted reader (one value per byte string). NOT decided: round-trip equality, canonical integer forms, equality of decoded values; implicit runtime panics inside reflect operations other than allocation sizes."
 	r.Trusted = []string{"package reflect, encoding/json", "sort.Sort"}
 
 	serPath := ir.Module + "/libs/ser"
@@ -306,6 +306,108 @@ func C11(p *ir.Program, r *report.R) {
 
 	// ---- canonical maps -----------------------------------------------------------------
 	serCanonicalMaps(p, r)
+
+	// ---- the type cache is written only under its WRITE lock --------------------------------------------
+	// cachedTypeInfo1 inserts into the package-level typeCache map. Every entry into it from outside
+	// its own recursion (generators call it again while the outer caller holds the lock) holds
+	// typeCacheMutex.Lock — a read lock lets two first-time decodes write the map concurrently and the
+	// runtime aborts the process.
+	{
+		ci1 := p.Func("libs/ser", "cachedTypeInfo1")
+		isLock := func(x ssa.Instruction, suffix string) bool {
+			c2, ok := x.(*ssa.Call)
+			return ok && strings.HasSuffix(ir.CalleeName(c2), suffix) && strings.HasSuffix(Arg(c2, 0), "typeCacheMutex")
+		}
+		lockedAt := func(fn *ssa.Function, in ssa.Instruction) bool {
+			for _, lk := range ir.Calls(fn, "sync.RWMutex.Lock") {
+				li, ok := lk.(*ssa.Call)
+				if !ok || !isLock(li, "RWMutex.Lock") || !ir.Precedes(li, in) {
+					continue
+				}
+				if found, _, _ := ir.FindPath(ir.PathQuery{From: ir.At(li), Target: func(x ssa.Instruction) bool { return x == in },
+					Avoid: func(x ssa.Instruction) bool { return isLock(x, "nlock") }}); found {
+					return true
+				}
+			}
+			return false
+		}
+		// greatest fixed point of "entered with the lock held": named functions of the package that are
+		// never used as values and all of whose call sites hold the lock (locally or by being in such a
+		// function themselves). The recursion cachedTypeInfo1 -> genTypeInfo -> make*Decoder -> cachedTypeInfo1
+		// is justified by its outside entries.
+		entered := map[*ssa.Function]bool{}
+		for _, f := range p.Funcs {
+			if f.Pkg != nil && ir.RelPkg(f.Pkg.Pkg) == "libs/ser" && f.Parent() == nil && f.Object() != nil && f.Synthetic == "" && !strings.HasSuffix(p.Pos(f.Pos()), "_test.go") {
+				entered[f] = true
+			}
+		}
+		for _, f := range p.Funcs {
+			if f.Pkg == nil || ir.RelPkg(f.Pkg.Pkg) != "libs/ser" {
+				continue
+			}
+			for _, b := range f.Blocks {
+				for _, in := range b.Instrs {
+					for _, op := range in.Operands(nil) {
+						if g, ok := (*op).(*ssa.Function); ok && entered[g] {
+							if c2, isCall := in.(ssa.CallInstruction); isCall && c2.Common().Value == *op {
+								if _, plain := in.(*ssa.Call); plain {
+									continue
+								}
+							}
+							delete(entered, g) // used as a value, deferred or started as a goroutine
+						}
+					}
+				}
+			}
+		}
+		sitesOf := func(f *ssa.Function) []ir.CallSite {
+			var out []ir.CallSite
+			for _, cs := range p.CallSites(f.Object().(*types.Func)) {
+				if !strings.HasSuffix(p.Pos(cs.Fn.Pos()), "_test.go") {
+					out = append(out, cs)
+				}
+			}
+			return out
+		}
+		for changed := true; changed; {
+			changed = false
+			for f := range entered {
+				cs := sitesOf(f)
+				// no caller at all: an exported function is entered from outside the package without the
+				// lock; an unexported one that is neither called nor used as a value is dead code
+				ok := len(cs) > 0 || (!f.Object().Exported() && f.Signature.Recv() == nil)
+				for _, s := range cs {
+					if !(entered[s.Fn] || lockedAt(s.Fn, s.Instr.(ssa.Instruction))) {
+						ok = false
+					}
+				}
+				if !ok {
+					delete(entered, f)
+					changed = true
+				}
+			}
+		}
+		nLocal, nInner := 0, 0
+		for _, cs := range sitesOf(ci1) {
+			in := cs.Instr.(ssa.Instruction)
+			local := lockedAt(cs.Fn, in)
+			if local {
+				nLocal++
+			} else {
+				nInner++
+			}
+			r.Check("K10", "type-cache/write-lock-held/"+ir.FuncName(cs.Fn), p.InstrPos(in), local || entered[cs.Fn], "cachedTypeInfo1 is entered with typeCacheMutex.Lock() held (not RLock): at the call, or at every entry of the enclosing generator")
+		}
+		r.Check("K10", "type-cache/write-lock-held/sites", p.Pos(ci1.Pos()), nLocal >= 3 && nInner >= 5, fmt.Sprintf("%d locking entries and %d recursive entries into cachedTypeInfo1 (confirmed by hand: 3 and 6)", nLocal, nInner))
+	}
+
+	// ---- what an encoder hands out is the caller's own memory ------------------------------------------------
+	// encbuf objects are pooled: toBytes returns a fresh slice, never (a slice of) the pooled buffer
+	{
+		tb := p.Func("libs/ser", "encbuf.toBytes")
+		sum := ir.DefaultEffects(p).Summarize(tb)
+		r.Check("K4", "ser.(*encbuf).toBytes/returns-fresh-memory", p.Pos(tb.Pos()), sum.RetFresh, "the encoding handed to the caller does not alias the pooled buffer")
+	}
 
 	// ---- one value per byte string -----------------------------------------------------------
 	// The slice decoders accept exactly one value: success is returned only when the reader is
